@@ -209,7 +209,7 @@ def finalize(case):
         # shipped integrator: linear models only (a polynomial rate law can blow up in finite time and
         # LSODA then crawls forever)
         return state_degree(case["content"]) <= 1
-    if state_degree(case["content"]) ** euler_steps(case) > 4096:
+    if state_degree(case["content"]) ** euler_steps(case) > 128:  # also keeps doubles far from overflow
         return False
     try:
         keys = {fail_key(case, i) for i in range(len(case["rows"]))}  # also guards exactness at t=0
